@@ -4,7 +4,7 @@ does it still apply and build, and does the property's check (static, on the pat
 usage: reseed.py [id-prefix] [--update]   (--update rewrites detected_by_check/reported in meta.json, keeping the first verdict as detected_initially)"""
 import json, os, subprocess, sys, glob
 env = dict(os.environ, GOFLAGS='-mod=mod', GOPROXY='off', GOSUMDB='off', GOTOOLCHAIN='local')
-WT = '/tmp/wt-reseed'
+WT = os.environ.get("RESEED_WT", "/tmp/wt-reseed")
 def sh(cmd, cwd=None):
     p = subprocess.run(cmd, shell=True, cwd=cwd, env=env, capture_output=True, text=True)
     return p.returncode, p.stdout + p.stderr
@@ -26,7 +26,7 @@ for d in sorted(glob.glob('/verif/seeded/*')):
     rc, o = sh('go build ./...', cwd=WT)
     if rc != 0:
         rows.append((sid, 'BUILD-FAILS', o[:100])); continue
-    rc, o = sh(f'/verif/bin/mitumvet -noselftest -repo {WT} -property {prop} -evidence /tmp/reseed-ev.json')
+    rc, o = sh(f'/verif/bin/mitumvet -noselftest -repo {WT} -property {prop} -evidence ' + WT + '-ev.json')
     v = [l for l in o.splitlines() if l.startswith(('VIOLATED', 'UNRESOLVED'))]
     rows.append((sid, 'detected' if rc == 1 else 'MISSED(exit %d)' % rc, (v[0][:150] if v else '')))
     if update and rc in (0, 1) and bool(meta.get('detected_by_check')) != (rc == 1):
